@@ -77,6 +77,17 @@ func fixBinds(g *gen.GConf) {
 		}
 	}
 	g.Binds = keep
+	for i := range g.Crypto {
+		if !ok[g.Crypto[i].Iface] {
+			g.Crypto[i].Iface = g.Ifaces[0].Name
+			if g.Kind == "IOS" {
+				g.Crypto[i].Iface = g.Ifaces[0].HW
+			}
+		}
+	}
+	if len(g.Crypto) > 1 {
+		g.Crypto = g.Crypto[:1]
+	}
 	for i := range g.Routes {
 		if g.Kind == "ASA" && !ok[g.Routes[i].Iface] {
 			g.Routes[i].Iface = g.Ifaces[0].Name
